@@ -368,9 +368,12 @@ def seek_rules(ctx, R41, R42, R34, R36, want_c03=True, want_c04=True, R35s=None)
                       detail=[fmt(d[2])[:80] + '=' + str(d[3]) for d in p.decisions][-5:])
     # --- empty bound --------------------------------------------------------------------------
     for p in paths:
+        em = [d for d in p.decisions if is_call(d[2], 'Bound::is_empty')]
+        if want_c03 and em and em[0][3] == 0:
+            st = [s_ for s_ in p.stores() if s_[2] == (1, 'empty_output')]
+            ctx.check(R36, not st, 'nonempty-bound-leaves-empty-key', 'the pending empty-key output is armed although the lower bound is not empty: ge("k") would start with the empty key', fn=f)
         if p.end != 'return':
             continue
-        em = [d for d in p.decisions if is_call(d[2], 'Bound::is_empty')]
         if not em or em[0][3] != 1:
             continue
         seen['empty'] += 1
